@@ -156,16 +156,72 @@ pub fn det_source(idx: u64) -> String {
 }
 
 pub fn fingerprint(src: &str, opts: &Opts) -> String {
+    // process state a compilation must leave alone: the working directory
+    let cwd_before = std::env::current_dir().ok();
     let (o, bytes) = compile_raw(src.as_bytes(), opts);
+    let cwd_after = std::env::current_dir().ok();
+    let mut moved = String::new();
+    if cwd_before != cwd_after {
+        moved = format!(" | cwd-moved to {:?}", cwd_after);
+        if let Some(d) = &cwd_before {
+            let _ = std::env::set_current_dir(d);
+        }
+    }
     let oc = match &o {
         Outcome::Ok(obs) => {
             let vars: Vec<&str> = obs.vars.iter().map(|v| v.name.as_str()).collect();
             let funcs: Vec<&str> = obs.funcs.iter().map(|f| f.name.as_str()).collect();
-            format!("Ok vars={} funcs={}", vars.join(","), funcs.join(","))
+            // included assembler blocks, in the order the builder receives them
+            let asm: Vec<String> = obs.asm_includes.iter().map(|a| format!("{:08x}", fnv(a.as_bytes()) as u32)).collect();
+            format!("Ok vars={} funcs={} asm={}", vars.join(","), funcs.join(","), asm.join(","))
         }
         other => other.short(),
     };
-    format!("{} | out={:016x}/{}", oc, fnv(&bytes), bytes.len())
+    format!("{} | out={:016x}/{}{}", oc, fnv(&bytes), bytes.len(), moved)
+}
+
+struct NoLog;
+impl log::Log for NoLog {
+    fn enabled(&self, _m: &log::Metadata) -> bool {
+        true
+    }
+    fn log(&self, r: &log::Record) {
+        // format the message (what a real logger does), keep nothing
+        let _ = format!("{}", r.args());
+    }
+    fn flush(&self) {}
+}
+static NOLOG: NoLog = NoLog;
+
+/// multi-file determinism bait: headers in a sub-directory (one of them failing), and two or
+/// three included assembler files
+pub fn files_case(idx: u64) -> (String, Opts) {
+    let mut rng = crate::util::Rng::for_case("C05files", idx);
+    let dir = format!("/verif/work/c05inc/p{}", std::process::id());
+    let _ = std::fs::create_dir_all(format!("{}/lib", dir));
+    let _ = std::fs::write(format!("{}/lib/cfg.h", dir), "#define CFG 6\nunsigned char cfgv;\n");
+    let _ = std::fs::write(format!("{}/lib/bad.h", dir), "unsigned char badv;\n#error bad header\n");
+    let _ = std::fs::write(format!("{}/cfg.h", dir), "#define CFG 5\nunsigned char cfgv;\n");
+    for k in 0..3 {
+        let _ = std::fs::write(format!("{}/snd{}.inc", dir, k), format!("snd{}\n\tLDA #{}\n\tRTS\n", k, k + 1));
+    }
+    let mut s = String::new();
+    let hdr = ["lib/cfg.h", "cfg.h", "lib/bad.h"][rng.below(if idx % 3 == 0 { 3 } else { 2 }) as usize];
+    s.push_str(&format!("#include \"{}\"\n", hdr));
+    let n = rng.range(2, 3);
+    let mut order: Vec<u64> = vec![0, 1, 2];
+    for i in 0..3 {
+        let j = rng.below(3) as usize;
+        order.swap(i, j);
+    }
+    for k in order.iter().take(n as usize) {
+        s.push_str(&format!("#include \"snd{}.inc\"\n", k));
+    }
+    s.push_str("unsigned char r;\nvoid main() { r = CFG; cfgv = 1; }\n");
+    let mut o = Opts::default();
+    o.include_dirs = vec![dir];
+    o.opt_level = (idx % 2) as u8;
+    (s, o)
 }
 
 pub fn child_main(args: &[String]) {
@@ -235,6 +291,10 @@ fn judge(kind: &str, idx: u64, src: &str, opts: &Opts, sig: Option<String>) -> C
             other = fp;
         }
     }
+    if base.contains("cwd-moved") {
+        viol(&mut res, format!("the compilation changed the working directory of the process: {}", base));
+        return res;
+    }
     if diff > 0 {
         viol(&mut res, format!("differs in {} of {} fresh threads (fresh hash seeds):\n  first : {}\n  other : {}", diff, NTHREADS, base, other));
         return res;
@@ -249,6 +309,19 @@ fn judge(kind: &str, idx: u64, src: &str, opts: &Opts, sig: Option<String>) -> C
         res.count("after-history compilations", 1);
         if fp != base {
             viol(&mut res, format!("differs after {} unrelated compilations in the same thread:\n  first : {}\n  later : {}", n, base, fp));
+            return res;
+        }
+    }
+    // (2b) process-wide log level: the result must not depend on whether a logger is listening
+    {
+        let _ = log::set_logger(&NOLOG);
+        log::set_max_level(log::LevelFilter::Trace);
+        let fp = fingerprint(src, opts);
+        log::set_max_level(log::LevelFilter::Off);
+        res.count("comparisons", 1);
+        res.count("compilations with a logger at trace level", 1);
+        if fp != base {
+            viol(&mut res, format!("differs when a logger is installed at trace level:\n  without: {}\n  with   : {}", base, fp));
             return res;
         }
     }
@@ -331,6 +404,7 @@ impl Monitor for C05 {
         for k in ["rand", "stress", "hw", "wild"] {
             v.extend(split_chunks(k, seed_offset(seed, &format!("C05{}", k), pool_len(k)), nc / 4, pool_len(k), 50));
         }
+        v.extend(split_chunks("files", seed_offset(seed, "C05f", 10_000), nc / 4, 10_000, 50));
         v
     }
     fn run_case(&self, kind: &str, idx: u64) -> CaseResult {
@@ -338,6 +412,12 @@ impl Monitor for C05 {
             "pin" => {
                 let (name, src) = c05_pins()[idx as usize];
                 judge(kind, idx, src, &Opts::default(), Some(format!("pin:{}", name)))
+            }
+            "files" => {
+                let (src, o) = files_case(idx);
+                let mut r = judge(kind, idx, &src, &o, None);
+                r.count("multi-file cases (headers in a sub-directory, included assembler files)", 1);
+                r
             }
             "det" => {
                 let src = det_source(idx);
@@ -370,6 +450,8 @@ impl Monitor for C05 {
             ("fresh-process compilations".into(), 1000),
             ("process runs with diagnostics on stdout".into(), 50),
             ("set:outcome kinds".into(), 2),
+            ("multi-file cases (headers in a sub-directory, included assembler files)".into(), 200),
+            ("compilations with a logger at trace level".into(), 2000),
         ]
     }
 }
